@@ -218,7 +218,8 @@ fn dump_assoc<'tcx>(tcx: TyCtxt<'tcx>, did: DefId, o: &mut J) {
                 methods.push(m);
             }
             ty::AssocKind::Type { .. } => {
-                if it.defaultness(tcx).has_value() {
+                // (the synthesized associated type of a return-position `impl Trait` in a trait has no name)
+                if it.opt_name().is_some() && it.defaultness(tcx).has_value() {
                     let t = tcx.type_of(it.def_id).instantiate_identity().skip_norm_wip();
                     types.set(it.name().as_str(), J::s(&ty_s(t)));
                 }
